@@ -164,7 +164,7 @@ def cases(draw, tier):
     is_async = gen.is_async_spec(spec)
     cfg = {"rtc": True if is_async else draw(st.booleans()), "allow": draw(st.booleans()), "driver": draw(st.sampled_from(["sync", "sync", "loop"])),
            "activate": draw(st.booleans()), "late": list(late) if draw(st.booleans()) else [],
-           "model_shape": draw(st.sampled_from(["default", "plain", "property", "class-default", "falsy-list", "len0"])), "bind_model": draw(st.booleans())}
+           "model_shape": draw(st.sampled_from(["default", "plain", "property", "class-default", "falsy-list", "len0", "falsy-dict", "userdict"])), "bind_model": draw(st.booleans())}
     if draw(st.booleans()):
         cfg["state_field"] = draw(st.sampled_from(["status", "st", "_state"]))
     if draw(st.integers(0, 2)) == 0:
